@@ -10,7 +10,7 @@ from hypothesis import strategies as st
 
 ID = 'C16'
 RULE = ('(a) exhaustive: every table of 1..3 (quick) / 1..4 (thorough) rows over the 8 possible rows, in presentation '
-        'variants (geo column/index, int/str IDs, int/float/bool cells, extra column, value columns in any order), each accepted table queried with '
+        'variants (geo column/index, int/str IDs, int/float/bool cells, extra column, value columns in any order, non-default row labels when geo is a column), each accepted table queried with '
         'every non-empty ordered subset of its geos x indices in {False, True} and with None; every single malformed '
         'mutation (column dropped, geo absent, duplicate ID incl. 1 vs "1", cell in {2,-1,0.5,NaN,None,"1"}, duplicated '
         'value column) of a legal table; (b) Hypothesis: tables up to 10 rows with drawn subsets and mutations. '
@@ -57,7 +57,8 @@ def enumerate_cases(tier):
       k += 1
       for (g, d, c) in variants:
         yield {'rows': rows, 'geo_as': g, 'id_dtype': d, 'cell': c, 'extra_col': (k % 3 == 0), 'mut': None, 'subsets': 'all',
-               'col_order': [None, ['treatment', 'control', 'exclude'], ['exclude', 'treatment', 'control'], ['control', 'exclude', 'treatment']][k % 4]}
+               'col_order': [None, ['treatment', 'control', 'exclude'], ['exclude', 'treatment', 'control'], ['control', 'exclude', 'treatment']][k % 4],
+               'row_labels': [None, 'reversed', 'gaps', 'repeated', 'strings'][k % 5]}
   # single mutations of legal tables
   for n in range(1, max_rows):
     for combo in itertools.product(range(1, 8), repeat=n):
@@ -92,7 +93,8 @@ def _spec(draw):
   return {'rows': rows, 'geo_as': draw(st.sampled_from(['column', 'index'])),
           'id_dtype': 'str' if id_dtype == 'name' else id_dtype, 'cell': cell,
           'extra_col': draw(st.booleans()), 'mut': mut, 'subsets': subsets,
-          'col_order': list(draw(st.permutations(['control', 'treatment', 'exclude']))) if draw(st.booleans()) else None}
+          'col_order': list(draw(st.permutations(['control', 'treatment', 'exclude']))) if draw(st.booleans()) else None,
+          'row_labels': draw(st.sampled_from([None, None, 'reversed', 'gaps', 'repeated', 'strings']))}
 
 
 def strategy(tier):
@@ -139,6 +141,12 @@ def build_frame(spec):
     df = pd.concat([df, df[[mut['col']]]], axis=1)
   if mut and mut['kind'] == 'dropcol' and mut['col'] != 'geo':
     df = df.drop(columns=[mut['col']])
+  rl = spec.get('row_labels')
+  if rl and spec['geo_as'] == 'column' and len(df):
+    # geo is a column and the frame carries its own row labels (kept after sorting / filtering / concatenating)
+    n = len(df)
+    df.index = {'reversed': list(range(n - 1, -1, -1)), 'gaps': [3 * i + 2 for i in range(n)], 'repeated': [i // 2 for i in range(n)],
+                'strings': ['r%d' % ((i * 7) % 11) for i in range(n)]}[rl][:n]
   if spec['geo_as'] == 'index':
     df = df.set_index('geo')
     if mut and mut['kind'] == 'dropcol' and mut['col'] == 'geo':
